@@ -301,4 +301,36 @@ theorem parseUDP_ok_inv (pkt : Bytes) (d : Datagram) (h : parseUDP pkt = .ok d) 
             exact ⟨rest, a, payload, rfl, hpa, h.symm⟩
     · cases h
 
+theorem wrapRead_build (a : AddrPort) (hw : a.wf) (hc : a.canonical) (h : Bytes) (hb : buildAddr a = some h)
+    (hl : h.length + 3 ≤ 256) (p : Bytes) (cap : Nat) :
+    wrapRead cap ((0x00 : UInt8) :: 0x00 :: 0x00 :: h ++ p) =
+      match a.addr with
+      | .ip4 b => .ok (b, a.port, p.take cap)
+      | .ip6 b => .ok (b, a.port, p.take cap)
+      | .domain n => if n.isEmpty then .ok ([], a.port, p.take cap) else .error .fqdn := by
+  obtain ⟨h', hb', hl4⟩ := buildAddr_some a hw hc
+  rw [hb] at hb'; simp only [Option.some.injEq] at hb'; subst hb'
+  have htake : ((0x00 : UInt8) :: 0x00 :: 0x00 :: h ++ p).take (cap + 256)
+      = (0x00 : UInt8) :: 0x00 :: 0x00 :: (h ++ p.take (cap + 256 - (h.length + 3))) := by
+    have e : ((0x00 : UInt8) :: 0x00 :: 0x00 :: h ++ p) = ((0x00 : UInt8) :: 0x00 :: 0x00 :: h) ++ p := by simp
+    rw [e, List.take_append]
+    have : ((0x00 : UInt8) :: 0x00 :: 0x00 :: h).take (cap + 256) = (0x00 : UInt8) :: 0x00 :: 0x00 :: h := by
+      apply List.take_of_length_le; simp only [List.length_cons]; omega
+    rw [this]
+    simp only [List.length_cons, List.cons_append]
+  have hpa := parseAddr_build a hw hc h (p.take (cap + 256 - (h.length + 3))) hb
+  have hlen : ¬ ((0x00 : UInt8) :: 0x00 :: 0x00 :: (h ++ p.take (cap + 256 - (h.length + 3)))).length ≤ 6 := by
+    simp only [List.length_cons, List.length_append]; omega
+  have htt : (p.take (cap + 256 - (h.length + 3))).take cap = p.take cap := by
+    rw [List.take_take]; congr 1; omega
+  unfold wrapRead
+  simp only [htake]
+  rw [if_neg hlen]
+  simp only [hpa, ne_eq, not_true_eq_false, or_self, if_false, htt]
+  cases a.addr <;> rfl
+
+theorem getHeader_setHeader (m : List ((Bytes × Nat) × Bytes)) (k : Bytes × Nat) (h : Bytes) :
+    getHeader (setHeader m k h) k = some h := by
+  simp [getHeader, setHeader, List.find?]
+
 end Mieru.SocksMsg
